@@ -147,6 +147,10 @@ def classify(r, ignore=None):
         return "fail", "; ".join(real_failures[:5])
     if descs:
         return "inconclusive", "unwinding bound too small: " + "; ".join(descs[:3])
+    if r["failed"] == 0:
+        # "0 of N failed ... VERIFICATION:- FAILED": the back end ended without a verdict for some checks (UNDETERMINED) -- on this
+        # machine that is the solver hitting the address-space cap of the harness. Not a pass, not a failure: not explored.
+        return "inconclusive", "resource budget: the solver ended without a verdict (0 checks failed, status FAILED: memory cap of the harness)"
     return "inconclusive", "FAILED without a failed check (ERROR/UNDETERMINED status)"
 
 
